@@ -15,7 +15,7 @@ STUBS = CP.STUBS + ["networkx.dag_longest_path (the path computation is C09's su
 ASSUMPTIONS = CP.ASSUMPTIONS
 BUDGET_S = {"quick": 540, "thorough": 3300}
 BOUNDS = {
-    "quick": "13 structures (1..2 operators with 0..3 launch/kernel pairs on 1..2 streams, cudaStreamSynchronize + Stream "
+    "quick": "22 structures (incl. two host threads launching on one stream, and a second thread launching on a stream on which the first waits for an event; 1..2 operators with 0..3 launch/kernel pairs on 1..2 streams, cudaStreamSynchronize + Stream "
              "Sync, cudaDeviceSynchronize + Context Sync, a sync between two launches, cudaEventRecord + "
              "cudaStreamWaitEvent (GPU->GPU) and + cudaEventSynchronize (GPU->CPU)) x windows {ProfilerStep instance 0, "
              "whole trace '', an operator name} x zero-weight launch edges {off,on}; second operator inside or outside the "
@@ -38,11 +38,13 @@ def skeletons(tier):
     out = []
 
     def add(n, anno, inst, z, step, pmode):
-        out.append({"id": f"{n}-{anno or 'all'}-{inst}-z{int(z)}-{pmode}", "struct": n,
+        out.append({"id": f"{n}-{anno or 'all'}-{inst}-z{int(z)}-{pmode}", "struct": n, "vars": CP.pinned_vars(n),
                     "params": {"anno": anno, "inst": inst, "zero": z, "step": step, "pmode": pmode}})
     if tier == "quick":
         for n in CP.STRUCTS:
             add(n, "", None, False, False, "all")
+            if n in ("W2", "L2"):       # two host threads: whole-trace window only (budget)
+                continue
             if n != "N":
                 add(n, "ProfilerStep", 0, False, True, "all")
             add(n, "", None, True, False, "all")
